@@ -220,6 +220,26 @@ fn generate(cli: &Cli) -> (Vec<Case>, Vec<String>) {
         ("ConfCookieResponse", Pkt::ConfCookieResponse { raw: vec![1, b'k', 0] }),
         ("ClientInformationAgain", client_information("de_de")),
     ];
+    // F13: the configured maximum is a limit per frame, not per read: a handshake that is exactly as
+    // long as the maximum allows, with the status request and the ping right behind it in the same
+    // segment, is answered like the same frames sent one by one
+    {
+        let spec = BaseSpec { name: "status-tight-maximum", intent: Intent::Status, secret: false, lat: [0, 0, 0], extras: vec![], no_target: false, ci_delay_ms: 0 };
+        let mut base = build_base(&spec, cli.seed ^ 0xfe);
+        let probe = run(&base);
+        if let Some(hs) = probe.client.sent.first() {
+            // declared length of the handshake frame = frame minus its (1-byte) length prefix
+            let declared = hs.plain.len() as i32 - 1;
+            base.cfg.max_frame = Some(declared);
+            let mut v = base.clone();
+            v.client.script.retain(|a| !matches!(a, Act::AwaitPkt { .. }));
+            for (ri, rp) in [ReadPlan::default(), ReadPlan { chunks: vec![4096], pending: vec![] }].into_iter().enumerate() {
+                let mut v = v.clone();
+                v.read_plan = rp;
+                cases.push(Case { class: format!("status-tight-maximum/pipelined/read-plan-{ri}"), shape: "read/pipelined-client/frame-as-long-as-the-maximum".into(), base: base.clone(), variant: v });
+            }
+        }
+    }
     // F12: the *timeout Disconnect* half written when discovery completes (a client that neither echoes
     // nor reads): the client is sent the same packets as when the write goes through at once. Only the
     // clientbound side is compared: which backend calls were still made is a matter of timing here.
